@@ -171,7 +171,13 @@ def _(I, ctx, r): return it_next(ctx, deref(r))
 @model('re:^<.* as Iterator>::peekable$')
 def _(I, ctx, it): return Peek(it)
 @model('re:^<.* as IntoIterator>::into_iter$')
-def _(I, ctx, it): return it
+def _(I, ctx, it):
+    v = it
+    while isinstance(v, Ref): v = v.get()
+    if isinstance(v, VecV):
+        byref = isinstance(it, Ref)
+        return ArrIt([Ref((lambda x: (lambda: x))(x), None) if byref else x for x in v.items])
+    return it
 @model('Peekable::peek')
 def _(I, ctx, r):
     p = deref(r)
@@ -222,7 +228,9 @@ def _(I, ctx, v): return v
 def _(I, ctx, r): return Ref(lambda: deref(r), None)
 @model('re:^core::slice::<impl \\[.*\\]>::iter$')
 def _(I, ctx, r):
-    v = deref(r); return ArrIt([Ref((lambda x: (lambda: x))(x), None) for x in (v.items if isinstance(v, VecV) else v)])
+    v = deref(r)
+    while isinstance(v, Ref): v = v.get()
+    return ArrIt([Ref((lambda x: (lambda: x))(x), None) for x in (v.items if isinstance(v, VecV) else (v.items() if isinstance(v, SliceV) else v))])
 @model('re:^<&Vec<.*> as IntoIterator>::into_iter$')
 def _(I, ctx, r):
     v = deref(r); return ArrIt([Ref((lambda x: (lambda: x))(x), None) for x in v.items])
